@@ -4,10 +4,8 @@ import MoneroModel.Model.Block
 open Monero Ledger
 /-! Instantiation of the allocation ledger on the worst nesting of explicit-length vectors in the transaction
 decoder: `Vec<TxIn>` whose `ToKey` elements contain a `Vec<VarInt>` (`key_offsets`). The instrumented decoders compute
-the same values as the model decoders (`*_val`), so the ledger bound is a statement about the modelled parse. -/
-
-/-- a model decoder that allocates nothing -/
-def lift {α} (d : Dec α) : RDec α := fun b => ⟨d b, 0, 0⟩
+the same values as the model decoders (`*_val`), so the ledger bound is a statement about the modelled parse.
+The scratch vector of `VarInt::consensus_decode` (`rvarint`) is charged transiently: slope `VSLOPE = 8` per byte looked at. -/
 
 theorem bounded_lift {α} (d : Dec α) (hs : ∀ b x r, d b = some (x, r) → r.length ≤ b.length) : Bounded 0 0 (lift d) :=
   ⟨fun b x r h => hs b x r h, fun b => by simp [lift], fun b => by simp [lift], fun b _ => rfl⟩
@@ -52,12 +50,10 @@ theorem rvecN_val {α} (sz : Nat) (rd : RDec α) (d : Dec α) (h : ∀ b, (rd b)
     cases hr : rrep rd n b with
     | mk v p l => rw [hr] at this; cases v <;> simpa using this
 
-/-- `Vec<T>::consensus_decode`: varint count, cap check, `with_capacity`, elements -/
-def rvec {α} (sz : Nat) (rd : RDec α) : RDec (List α) := rbind (lift varint) fun n => rvecN CAP sz rd n
 theorem rvec_val {α} (sz : Nat) (rd : RDec α) (d : Dec α) (h : ∀ b, (rd b).val = d b) (b : Bytes) :
     (rvec sz rd b).val = vec sz d b := by
   unfold rvec vec
-  simp only [rbind_val, lift, Monero.bind]
+  simp only [rbind_val, rvarint, Monero.bind]
   cases varint b with
   | none => rfl
   | some nr => exact rvecN_val sz rd d h nr.1 nr.2
@@ -75,15 +71,94 @@ theorem takeN_suffix (k : Nat) (b x r : Bytes) (h : takeN k b = some (x, r)) : r
 theorem u8_consumes (b : Bytes) (x : UInt8) (r : Bytes) (h : u8 b = some (x, r)) : r.length + 1 ≤ b.length := by
   have := sound_u8 b x r h; subst this; simp
 
-def rvarint : RDec Nat := lift varint
-theorem bounded_rvarint : Bounded 0 0 rvarint :=
-  bounded_lift varint fun b x r h => by have := varint_consumes b x r h; omega
+/-- the group loop pushes at most one group per byte it reads -/
+theorem varintPushed_le : ∀ (b : Bytes) (k : Nat), varintPushed b k ≤ k + b.length
+  | [], k => by simp [varintPushed]
+  | x :: xs, k => by
+    unfold varintPushed
+    split
+    · omega
+    · split
+      · simp only [List.length_cons]; omega
+      · have := varintPushed_le xs (k + 1); simp only [List.length_cons]; omega
+/-- when the loop ends at a terminator, the groups pushed are exactly the bytes consumed -/
+theorem varintPushed_collect : ∀ (b : Bytes) (acc gs : List Nat) (r : Bytes), collect b acc = some (gs, r) →
+    varintPushed b acc.length + r.length = acc.length + b.length
+  | [], _, _, _, h => by simp [collect] at h
+  | x :: xs, acc, gs, r, h => by
+    unfold collect at h
+    unfold varintPushed
+    by_cases h1 : x.toNat = 0 ∧ acc ≠ []
+    · rw [if_pos h1] at h; simp at h
+    · rw [if_neg h1] at h
+      have h1' : ¬ (x.toNat = 0 ∧ acc.length ≠ 0) := by
+        intro hh; exact h1 ⟨hh.1, fun e => hh.2 (by rw [e]; rfl)⟩
+      rw [if_neg h1']
+      by_cases h2 : x.toNat < 128
+      · rw [if_pos h2] at h; rw [if_pos h2]
+        simp only [Option.some.injEq, Prod.mk.injEq] at h
+        obtain ⟨_, rfl⟩ := h
+        simp only [List.length_cons]; omega
+      · rw [if_neg h2] at h; rw [if_neg h2]
+        have := varintPushed_collect xs _ gs r h
+        have hl : (acc ++ [x.toNat % 128]).length = acc.length + 1 := by simp
+        rw [hl] at this
+        simp only [List.length_cons]
+        omega
+theorem varint_collect (b : Bytes) (n : Nat) (r : Bytes) (h : varint b = some (n, r)) : ∃ gs, collect b [] = some (gs, r) := by
+  unfold varint at h
+  cases hc : collect b [] with
+  | none => rw [hc] at h; simp at h
+  | some v =>
+    obtain ⟨gs, r'⟩ := v
+    rw [hc] at h
+    simp only at h
+    cases ha : accum gs.reverse 0 with
+    | none => rw [ha] at h; simp at h
+    | some m => rw [ha] at h; simp only [Option.some.injEq, Prod.mk.injEq] at h; exact ⟨gs, by rw [h.2]⟩
 
-/-- instrumented `TxIn::consensus_decode` -/
-def rtxin : RDec TxIn := rbind (lift u8) fun t =>
-  if t = 0xff then rbind rvarint fun h => rpure (.gen h)
-  else if t = 2 then rbind rvarint fun a => rbind (rvec sizes.varint rvarint) fun o => rbind (lift key) fun k => rpure (.toKey a o k)
-  else rfail
+/-- slope of the VarInt scratch vector: `max 8 (GROW·k) ≤ 8·k` bytes for `k ≥ 1` groups -/
+def VSLOPE : Nat := 8
+theorem scratchU8_le (k : Nat) : scratchU8 k ≤ VSLOPE * k := by
+  unfold scratchU8 VSLOPE GROW
+  split
+  · omega
+  · simp only [Nat.max_le]; omega
+
+/-- the scratch vector is paid for by the bytes the VarInt decoder looked at — consumed on success, at most the whole input
+on failure (a run of `0xff`) -/
+theorem varint_scratch_le_used (b : Bytes) : scratchU8 (varintPushed b 0) ≤ VSLOPE * used b (rvarint b) := by
+  refine Nat.le_trans (scratchU8_le _) (Nat.mul_le_mul_left _ ?_)
+  unfold used
+  have hval : (rvarint b).val = varint b := rfl
+  rw [hval]
+  cases hv : varint b with
+  | none => have := varintPushed_le b 0; simpa using this
+  | some v =>
+    obtain ⟨n, r⟩ := v
+    obtain ⟨gs, hc⟩ := varint_collect b n r hv
+    have := varintPushed_collect b [] gs r hc
+    simp only [List.length_nil] at this
+    simp only; omega
+
+theorem bounded_rvarint : Bounded 0 VSLOPE rvarint := by
+  refine ⟨?_, ?_, ?_, ?_⟩
+  · intro b x r h; have := varint_consumes b x r h; omega
+  · intro b; have := varint_scratch_le_used b; show scratchU8 (varintPushed b 0) ≤ _; omega
+  · intro b; show 0 ≤ _; omega
+  · intro b _; rfl
+
+/-- non-vacuity of the charge: on a run of `n` bytes `0xff` the decoder fails and the ledger reports the whole scratch vector -/
+theorem rvarint_ff (n : Nat) : varintPushed (List.replicate n 0xff) 0 = n := by
+  have : ∀ n k, varintPushed (List.replicate n (0xff : UInt8)) k = k + n := by
+    intro n; induction n with
+    | zero => intro k; simp [varintPushed]
+    | succ n ih =>
+      intro k
+      rw [List.replicate_succ]
+      unfold varintPushed
+      rw [if_neg (fun h => absurd h.1 (by decide)), if_neg (by decide), ih]; omega
+  simpa using this n 0
 
 theorem rtxin_val (b : Bytes) : (rtxin b).val = txin b := by
   have e1 : ∀ r, (rvarint r).val = varint r := fun _ => rfl
@@ -127,16 +202,17 @@ theorem rtxin_val (b : Bytes) : (rtxin b).val = txin b := by
 theorem bounded_rfail {α} : Bounded 0 0 (rfail : RDec α) :=
   ⟨fun b x r h => by simp [rfail] at h, fun b => by simp [rfail], fun b => by simp [rfail], fun b _ => rfl⟩
 
-theorem bounded_rvec_varint : Bounded CAP sizes.varint (rvec sizes.varint rvarint) := by
+theorem bounded_rvec_varint : Bounded CAP (VSLOPE + sizes.varint) (rvec sizes.varint rvarint) := by
   unfold rvec
-  refine bounded_bind (bounded_mono bounded_rvarint (Nat.zero_le _) (Nat.zero_le _)) fun n => ?_
-  have := bounded_vecN (A := 0) (B := 0) (CAP := CAP) (sz := sizes.varint) (w := 1) bounded_rvarint (Nat.le_refl 1)
-    (fun b x r h => by simp only [rvarint, lift] at h; exact varint_consumes b x r h) n
+  refine bounded_bind (bounded_mono bounded_rvarint (Nat.zero_le _) (Nat.le_add_right _ _)) fun n => ?_
+  have := bounded_vecN (A := 0) (B := VSLOPE) (CAP := CAP) (sz := sizes.varint) (w := 1) bounded_rvarint (Nat.le_refl 1)
+    (fun b x r h => varint_consumes b x r h) n
   simpa using this
 
-theorem bounded_rtxin : Bounded CAP sizes.varint rtxin := by
+theorem bounded_rtxin : Bounded CAP (VSLOPE + sizes.varint) rtxin := by
   unfold rtxin
-  have bl {α} {d : RDec α} (h : Bounded 0 0 d) : Bounded CAP sizes.varint d := bounded_mono h (Nat.zero_le _) (Nat.zero_le _)
+  have bl {α} {B : Nat} {d : RDec α} (h : Bounded 0 B d) (hB : B ≤ VSLOPE + sizes.varint := by omega) :
+      Bounded CAP (VSLOPE + sizes.varint) d := bounded_mono h (Nat.zero_le _) hB
   refine bounded_bind (bl (bounded_lift u8 fun b x r h => by have := u8_consumes b x r h; omega)) fun t => ?_
   split
   · exact bounded_bind (bl bounded_rvarint) fun h => bl (bounded_pure _)
@@ -151,10 +227,8 @@ theorem rtxin_consumes (b : Bytes) (x : TxIn) (r : Bytes) (h : (rtxin b).val = s
   subst this
   cases x <;> simp [encTxIn] <;> omega
 
-/-- the inputs vector of a transaction prefix -/
-def rvecTxIn : RDec (List TxIn) := rvec sizes.txin rtxin
 theorem rvecTxIn_val (b : Bytes) : (rvecTxIn b).val = vec sizes.txin txin b := rvec_val sizes.txin rtxin txin rtxin_val b
-theorem bounded_rvecTxIn : Bounded (CAP + CAP) (sizes.varint + sizes.txin) rvecTxIn := by
+theorem bounded_rvecTxIn : Bounded (CAP + CAP) (VSLOPE + sizes.varint + sizes.txin) rvecTxIn := by
   unfold rvecTxIn rvec
-  refine bounded_bind (bounded_mono bounded_rvarint (Nat.zero_le _) (Nat.zero_le _)) fun n => ?_
+  refine bounded_bind (bounded_mono bounded_rvarint (Nat.zero_le _) (by omega)) fun n => ?_
   exact bounded_vecN (w := 1) bounded_rtxin (Nat.le_refl 1) rtxin_consumes n
